@@ -81,8 +81,10 @@ fn find_free_entries_check<const FULL: bool>() {
     let n: u32 = kani::any();
     kani::assume(n >= 1 && n <= 3);
     let r = root.find_free_entries(n);
-    let mut stream = match r { Ok(s) => ManuallyDrop::new(s), Err(_) => { assert!(false); return; } };
-    let pos = match stream.seek(SeekFrom::Current(0)) { Ok(p) => p, Err(_) => { assert!(false); return; } };
+    let stream = match r { Ok(s) => ManuallyDrop::new(s), Err(_) => { assert!(false); return; } };
+    // (read the position through abs_pos(): a `seek(Current(0))` on the returned enum makes CBMC explore the
+    // cluster-chain walk of the File-backed variant as well - the variant tag lives in a niche of the payload)
+    let pos = match stream.abs_pos() { Some(p) => p - g.root_base(), None => { assert!(false); return; } };
     assert!(pos % 32 == 0);
     let r = (pos / 32) as usize;
     // independent scan
@@ -90,7 +92,7 @@ fn find_free_entries_check<const FULL: bool>() {
     while e < 4 && kind_of(&dir, e) != Kind::End { e += 1; }
     assert!(r <= e);                                                    // (b)
     let mut i = r;
-    while i < e { assert!(kind_of(&dir, i) == Kind::Deleted); i += 1; } // (a)+(b): every slot from r up to the end marker ...
+    while i < e && (i as u32) < r as u32 + n { assert!(kind_of(&dir, i) == Kind::Deleted); i += 1; } // (a): the slots handed out in front of the end marker are deleted
     // ... is deleted if it lies inside the run being handed out; if the run ends before the end marker, it is n long
     let mut run = 0;
     let mut j = r;
